@@ -14,9 +14,15 @@ THEOREMS = [
     (P, 'EAO.C20.order_cash', 'cash = - sum_o fraction_o * capa_o * price_o * sum over covered steps of dt * discount'),
     (P, 'EAO.C20.order_report', 'the special table lists the live orders in order with fraction and fraction * cost'),
     (P, 'EAO.C20.order_outside_inert', 'an order with no step in the horizon has zero cost, no mapping row, no restriction, occurs in no nodal row; cost and dispatch do not depend on its variable'),
+    (P, 'EAO.C20.order_flow', 'flow of the order-book problem into any node at any step = delivered volume of the per-order formulation'),
+    (P, 'EAO.C20.order_cost', 'minus the cost of the order-book problem = minus the textbook payment'),
+    (P, 'EAO.C20.order_refines', 'partial execution: the asset problem and the textbook per-order book have exactly the same attainable (flows, cash) pairs, on any grid'),
+    (P, 'EAO.C20.order_refines_full', 'full execution: the pairs attainable with the declared booleans in {0,1} are exactly those of the textbook book with every fraction in {0,1} (orders outside the horizon change neither flows nor cash)'),
+    (P, 'EAO.C20.orderbook_composable', 'the order book meets the premises (WF, Local) of the composition theorems'),
+    (P, 'EAO.C20.order_refines_portfolio', 'a portfolio containing the order book at any position among assets that refine their textbook semantics has the same upper bounds of its (relaxed) value set as the textbook portfolio with the per-order formulation; feasible points correspond both ways with equal flows'),
     (P, 'EAO.C20.orderbook_wf', 'the built problem is well-formed (sizes, names, steps on the grid, row-less variables have zero cost)'),
 ]
-PARTIAL = ['order_refines (equality of the PORTFOLIO optimum with the per-order textbook formulation) is not a theorem yet: the asset-local half (feasible set, delivery, cash) is proved, the composition step rests on EAO.C09.assemble_feasible_iff/assemble_value; the portfolio-level equality is checked by the independent reference LP of the oracle']
+PARTIAL = ['order_refines_portfolio_full (full execution at PORTFOLIO level) is a stated target, not a theorem: the asset-local half is exact (order_refines_full, order_bools_portfolio), missing is the composition lemma for boolean flags across assets; at portfolio level the full-execution equality is checked by the independent enumeration reference of the oracle']
 COMPONENTS = ['orderbook builder vs OrderBook.setup_optim_problem', 'orderbook read-out (dispatch, DCF, special rows) vs io.extract_output']
 RULE = ('1-6 orders of 18 placement kinds (inside, straddling, outside before/after, off-grid, touching, zero-length, reversed), dates naive/strings/zone-aware, dict and DataFrame form, 13 grids incl. MS and DST days, 5 zones, wacc, NaN/length malformations; '
         'half of the cases embedded in a portfolio (market, sometimes storage) and optimised; non-trivial = some order executed / covering a step; distinct by case hash')
